@@ -19,6 +19,7 @@ DOMS = [
     (0.0, 2.0, False), (-1.5, 1.5, False), (-3.0, -0.5, False), (0.5, 4.0, False),
     (0.0, INF, False), (-INF, 0.0, False), (-INF, INF, False), (-1.0, 1.0, False),
     (-3.0, 2.0, True), (-2.5, 1.0, False), (-1.0, 3.0, True),          # zero-crossing, asymmetric
+    (2.5, 2.5, False),                                                 # fixed at a fractional value
 ]
 DOMS_SMALL = [DOMS[i] for i in (2, 4, 5, 7, 9, 10, 14, 15)]
 
@@ -38,6 +39,8 @@ for op in ('lt', 'le', 'eq', 'ge', 'gt', 'ne'):
         UNARY.append(('%s%g' % (op, rhs), (lambda op, rhs: lambda a: ('count', (op, a, N(rhs)), ('b', 0)))(op, rhs)))
 UNARY.append(('not', lambda a: ('count', ('not', ('ge', a, N(1))), ('b', 0))))
 UNARY.append(('numberofc1', lambda a: ('numberof', N(1), a, N(1))))
+UNARY += [('maxc2.5', lambda a: ('max', a, N(2.5))), ('minc2.5', lambda a: ('min', a, N(2.5))), ('minc-0.5', lambda a: ('min', a, N(-0.5))),
+          ('ifc2.5', lambda a: ('if', ('ge', a, N(1)), a, N(2.5))), ('ifc', lambda a: ('if', ('ge', a, N(1)), N(0.5), a))]
 
 BINARY = [('add', lambda a, b: ('add', a, b)), ('sub', lambda a, b: ('sub', a, b)), ('mul', lambda a, b: ('mul', a, b)),
           ('div', lambda a, b: ('div', a, b)), ('min', lambda a, b: ('min', a, b)), ('max', lambda a, b: ('max', a, b)),
@@ -233,6 +236,60 @@ def work(job):
 ALLB = [b for _, b in UNARY] + [b for _, b in BINARY] + [b for _, b in TERNARY]
 
 
+# ---------------------------------------------------------------------------------------------------
+# root logical constraints: bounds propagated DOWN from a root (a conjunction fixed to false, a disjunction fixed to
+# true, ...) must not exclude values the sub-expressions take at feasible points.  Oracle: at every NL-feasible grid
+# point the true value of every delivered expression (C07's true_values) lies in the bounds of its result variable.
+RV = [(0.0, 2.0, False, 0.5), (-2.0, 2.0, True, 1.0), (0.0, 1.0, True, 1.0)]
+_Y, _X, _B = ('v', 0), ('v', 1), ('v', 2)
+_A1, _A2, _A3 = ('ge', _X, N(1)), ('le', _Y, N(1)), ('ge', _B, N(1))
+ROOTS = [
+    ('not and', ('not', ('and', _A1, _A2))), ('not and3', ('not', ('forall', _A1, _A2, _A3))), ('not or', ('not', ('or', _A1, _A2))),
+    ('or not', ('or', ('not', _A1), _A2)), ('not iff', ('not', ('iff', _A1, _A3))), ('impl', ('impl', _A1, _A2, ('b', True))),
+    ('not impl', ('not', ('impl', _A1, _A2, ('b', True)))), ('impl else', ('impl', _A3, _A1, _A2)),
+    ('and or', ('and', ('or', _A1, _A2), ('not', _A3))), ('atmost1', ('atmost', N(1), ('count', _A1, _A2, _A3))),
+    ('atleast2', ('atleast', N(2), ('count', _A1, _A2, _A3))), ('not exactly1', ('nexactly', N(1), ('count', _A1, _A2, _A3))),
+    ('not exists', ('not', ('exists', _A1, _A2, _A3))), ('eq max', ('eq', ('max', _X, _B), N(1))), ('le abs', ('le', ('abs', _X), _Y)),
+    ('ne if', ('ne', ('if', _A3, _X, N(0)), N(1))),
+]
+
+
+def work_root(job):
+    global _srv
+    if _srv is None: _srv = flatlib.Server(flatlib.build())
+    name, e = job
+    from delivered import Delivered
+    st = collections.Counter(); viols = []
+    m = Model(RV, lcons=[e])
+    nl = m.nl()
+    for opts in OPTS:
+        r = _srv.request('convert', nl=nl, opts=opts, acc=ACC)
+        st['conversions'] += 1
+        if r.get('status') != 'ok': st['root_refused'] += 1; continue
+        D = Delivered(r, len(m.vars))
+        for p in m.grid():
+            if not m.feasible(p): continue
+            a = _c07.true_values(D, r, p, len(m.vars))
+            if a is None: st['root_aux_not_determined'] += 1; continue
+            st['root_points'] += 1
+            for i in range(len(m.vars), D.nv):
+                lb, ub, ty = D.vars[i]; v = a[i]
+                bad = v < lb - 1e-9 * max(1, abs(lb)) or v > ub + 1e-9 * max(1, abs(ub)) or (ty == 1 and abs(v - round(v)) > 1e-9)
+                if bad:
+                    tn = next((c['type'] for c in D.cons if isinstance(c['data'], dict) and c['data'].get('res_var') == i), 'variable')
+                    viols.append(('C06 root-logical %s: bounds of a result variable exclude its true value at a feasible point (%s)' % (name, tn.split('<')[0]),
+                                  {'model': m.describe(), 'opts': opts, 'point': list(p), 'var': i, 'bounds': [lb, ub, ty], 'true_value': v},
+                                  {'nl': nl, 'opts': opts}))
+                    break
+            if viols: break
+    return dict(st), viols[:3]
+
+
+import importlib.util as _ilu
+_spec = _ilu.spec_from_file_location('c07lib', os.path.join(os.path.dirname(os.path.dirname(os.path.abspath(__file__))), 'C07', 'check.py'))
+_c07 = _ilu.module_from_spec(_spec); _spec.loader.exec_module(_c07)
+
+
 def build():
     return flatlib.build()
 
@@ -249,7 +306,11 @@ def main(tier, seed):
             tot.update(st); classes.update(cl)
             if sample: chk.sample(sample)
             for sig, det, rp in viols: chk.violation(sig, det, rp)
+        for st, viols in pool.imap_unordered(work_root, ROOTS, chunksize=1):
+            tot.update(st)
+            for sig, det, rp in viols: chk.violation(sig, det, rp)
     for k, v in tot.items(): chk.set(k, v)
+    if tot['root_points'] < 200: chk.broken.append('vacuous: root-logical family judged only %d points' % tot['root_points'])
     chk.set('cases', len(jobs))
     chk.set('evaluations', tot['conversions'])
     chk.cov['_classes'] = classes
@@ -259,7 +320,7 @@ def main(tier, seed):
             'constraint natively; for every delivered functional constraint the true function is evaluated on the gridded argument '
             'domains and must lie in the result variable bounds / be integral for integer results; additionally the delivered model '
             'must be point-wise equivalent on finite domains (catches wrong constant/alias replacement). A class = (constraint type, '
-            'result kind fixed|int|cont, bounds finite|half-infinite).' % (len(UNARY), len(BINARY), len(TERNARY), len(DOMS), OPTS) + ' Mixed integer/continuous pairs are also run with the integer variable at the lower NL index.')
+            'result kind fixed|int|cont, bounds finite|half-infinite).' % (len(UNARY), len(BINARY), len(TERNARY), len(DOMS), OPTS) + ' Mixed integer/continuous pairs are also run with the integer variable at the lower NL index. Root-logical family: %d models with one root logical constraint (negated conjunctions / disjunctions, implications, count comparisons); at every NL-feasible grid point the true value of every delivered expression must lie in the bounds of its result variable.' % len(ROOTS))
     chk.assumptions += ['containment is judged with tolerance 1e-9*max(1,|v|) (absorbs libm rounding; a cut-off of a few ulp is not reported)',
                         'infinite argument domain ends are represented by {+-1e3, +-1e9}',
                         'expressions are placed in an objective so that no root constraint narrows the result bounds',
